@@ -472,7 +472,8 @@ fn law_long_run(tier: Tier, f: usize, ix: &[usize], sr: u32, sigs: &[usize], ev:
 				}
 				let mut a = Drv::new(f, ix, sr);
 				let mut b = Drv::new(f, ix, sr);
-				let mut warm = gen(s, 96);
+				// (delay lines and reverb combs: long enough for their cursors to have travelled past the shorter lengths)
+				let mut warm = gen(s, if f == 2 || f == 3 { 9000 } else { 96 });
 				let mut warm2 = warm.clone();
 				a.feed(&mut warm, IBS);
 				b.feed(&mut warm2, IBS);
